@@ -7,8 +7,10 @@ Mirrors `glue/core/data.py`: `add_component` (shape check, pixel / world compone
 `_update_world_components`, `ComponentID.label` / `Data.label` setters, `find_component_id`, and the
 hub messages each of them broadcasts (`glue/core/message.py`).  Core Lean only.
 
-`Impl`  = `step` (the code that exists, *with* the repairs F13/F16–F22 of `props.d/C17/fixes`;
-          `stepUnrepaired` keeps the behaviour before F20–F22 for the `decide`d witnesses);
+`Impl`  = `step` (the code that exists, *with* the repairs F13/F16–F25 of `props.d/C17/fixes` and
+          C14's F14; arbitrary arguments: `step` first accounts for ComponentID objects it has not seen,
+          then runs `stepCore`; `stepUnrepaired` keeps the behaviour before F20–F23 for the `decide`d
+          witnesses);
 `Spec`  = `specInv` (structural invariant on an observation), `specStep` (the messages of one call
           explain exactly the observed change), `specTrace` (both, along a whole history).
 Identifiers (`ComponentID` objects) are natural numbers, labels are natural-number codes (the
@@ -209,8 +211,18 @@ def setCoords (s : State) (v : Option Nat) : Res :=
     if s1.comps.isEmpty then (s1, []) else updateWorld s1 s1.shape.length
   else (s, [])
 
-/-- `_check_can_add` for a plain component of shape `shape`. -/
+/-- `_check_can_add` for a plain component of shape `shape` (repair F23): anything goes into an empty
+dataset; while the dataset has no shape yet and holds coordinate components but no array (a session
+being loaded: the coordinate components are restored first) any array is accepted; otherwise the
+shape must be the dataset's — in particular a dataset of 0-d arrays only takes 0-d arrays. -/
 def canAdd (s : State) (shape : Shape) : Bool :=
+  s.comps.isEmpty
+  || (s.shape == [] && s.comps.any (·.kind.isCoord) && s.comps.all (fun c => !c.kind.isMain))
+  || shape == s.shape
+
+/-- `_check_can_add` before the repair F23: a dataset whose components all have shape `()` accepted an
+array of any shape. -/
+def canAddUnrepaired (s : State) (shape : Shape) : Bool :=
   s.comps.isEmpty || s.comps.all (fun c => compShape s.shape c == []) || shape == s.shape
 
 /-- `add_component(array, cid)` after the shape check. -/
@@ -285,13 +297,22 @@ def replaceFirst (xs : List Cid) (o n : Cid) : List Cid :=
   | [] => []
   | x :: rest => if x == o then n :: rest else x :: replaceFirst rest o n
 
+/-- `link.replace_ids(old, new)` on the inputs of a derived component. -/
+def Kind.replaceDep (o n : Cid) : Kind → Kind
+  | .derived deps => .derived (deps.map fun x => if x == o then n else x)
+  | k => k
+
+def Comp.replaceDep (o n : Cid) (x : Comp) : Comp := { x with kind := x.kind.replaceDep o n }
+
 def updateIdImpl (s : State) (old new : Cid) : Res :=
   if new == old then (s, []) else
   let inC := (cids s.comps).contains old
-  let comps' := if inC then dictOfPairs (s.comps.map fun x => if x.cid == old then { x with cid := new } else x)
+  let comps0 := if inC then dictOfPairs (s.comps.map fun x => if x.cid == old then { x with cid := new } else x)
                 else s.comps
   let inP := s.pix.contains old
   let inW := s.world.contains old
+  -- C14 / F14: when anything was re-assigned, the derived components that read `old` follow
+  let comps' := if inC || inP || inW then comps0.map (Comp.replaceDep old new) else comps0
   let s' := { s with comps := comps',
                      pix := if inP then replaceFirst s.pix old new else s.pix,
                      world := if inW then replaceFirst s.world old new else s.world }
@@ -307,11 +328,15 @@ def reorderImpl (s : State) (cs : List Cid) : Out :=
     ok ({ s with comps := comps' }, if s.hub then [.reorder cs] else [])
 
 /-- First failing entry of an `update_components` mapping (checked before anything is assigned:
-F17). -/
+F17): `get_component` raises IncompatibleAttribute for an id that is neither a component nor
+externally derivable. -/
 def updateCheck (s : State) : List (Cid × Shape × Nat) → Option Err
   | [] => none
   | (c, sh, _) :: rest =>
     if !((cids s.comps).contains c || s.linked.contains c) then some .incompatible
+    -- F24: only components that hold an array can take new values (a derived / coordinate component,
+    -- also an externally derivable one, is refused)
+    else if !s.comps.any (fun x => x.cid == c && x.kind.isMain) then some .value
     else if sh != s.shape then some .value
     else updateCheck s rest
 
@@ -414,8 +439,9 @@ def addDerivedImpl (s : State) (viaLink : Bool) (l : Label) (deps : List Cid) : 
       let (s0, c) := fresh s l
       ok (addRaw s0 ⟨c, .derived deps, [], 0⟩)
 
-/-- One call of the mutation API. -/
-def step (s : State) : Op → Out
+/-- One call of the mutation API whose arguments are ComponentID objects the model already knows
+(`< next`; `step` below allocates the others first). -/
+def stepCore (s : State) : Op → Out
   | .addArray l shape val =>
     if !canAdd s shape then fail s .value else
     let (s0, c) := fresh s l
@@ -454,18 +480,48 @@ def step (s : State) : Op → Out
     else ok ({ s with linked := cs }, if s.hub then [.ext] else [])
   | .nop => ok (s, [])
 
-/-- The mutation API before the repairs F20–F22 (only used by the witnesses of the old behaviour in
+/-- The mutation API before the repairs F20–F23 (only used by the witnesses of the old behaviour in
 `Props/C17.lean`): `remove_component` accepted pixel / world ids, `add_component` replaced a component
 under an id in use without announcing anything, `update_id` onto an id in use merged the two keys of
-the `OrderedDict`. -/
-def stepUnrepaired (s : State) : Op → Out
+the `OrderedDict`, a dataset of 0-d arrays accepted an array of any shape. -/
+def stepUnrepairedCore (s : State) : Op → Out
+  | .addArray l shape val =>
+    if !canAddUnrepaired s shape then fail s .value else
+    let (s0, c) := fresh s l
+    ok (addMain s0 c shape val)
   | .addArrayAt c shape val =>
-    if !canAdd s shape then fail s .value else
+    if !canAddUnrepaired s shape then fail s .value else
     ok ((if s.comps.isEmpty then createPixelWorld s shape.length else (s, [])).bind fun s1 =>
       addRawSilent s1 ⟨c, .main, shape, val⟩)
   | .remove c => ok (removeComp s c)
   | .updateId old new => ok (updateIdImpl s old new)
-  | op => step s op
+  | op => stepCore s op
+
+/-- Every identifier a call mentions. -/
+def Op.ids : Op → List Cid
+  | .addArrayAt c _ _ => [c]
+  | .addDerived _ _ deps => deps
+  | .remove c => [c]
+  | .reorder cs => cs
+  | .updateId o n => [o, n]
+  | .updateComponents m => m.map (·.1)
+  | .rename c _ => [c]
+  | .setLinked cs => cs
+  | _ => []
+
+/-- One more than the largest identifier among `ids` (0 for none). -/
+def idBound (ids : List Cid) : Nat := ids.foldl (fun b c => max b (c + 1)) 0
+
+/-- A call may mention ComponentID objects the model has not seen yet (`≥ next`): the caller made them
+(`ComponentID(label)`, no parent, not used anywhere; their label reads as code 0 until it is set).
+They are accounted for before the call runs, so that identities handed out later are different
+objects. Nothing observable changes. -/
+def alloc (s : State) (op : Op) : State := { s with next := max s.next (idBound op.ids) }
+
+/-- One call of the mutation API, with arbitrary arguments. -/
+def step (s : State) (op : Op) : Out := stepCore (alloc s op) op
+
+def stepUnrepaired (s : State) (op : Op) : Out := stepUnrepairedCore (alloc s op) op
 
 /-- A fresh `Data()` together with `npool` free-standing `ComponentID`s labelled `poolLabels`. -/
 def init (poolLabels : List Label) : State :=
@@ -643,13 +699,25 @@ def labelsOk (hub : Bool) (pre post : Obs) (msgs : List Msg) : Bool :=
     | some c0 => !hub || ((c0.label != c.label) == msgs.contains (.rename c.cid))
     | none => !msgs.contains (.rename c.cid)
 
+def Msg.applyTo (m : Msg) (k : Kind) : Kind :=
+  match m with
+  | .replaced o n => k.replaceDep o n
+  | _ => k
+
+/-- The class of a component after the announced `ComponentReplaced(o, n)`: a derived component that
+read `o` now reads `n` (nothing else about a component's class follows from a message). -/
+def kindAfter (msgs : List Msg) (k : Kind) : Kind :=
+  msgs.foldl (fun k m => m.applyTo k) k
+
 /-- A surviving component whose class / shape / values changed is covered by a
-`NumericalDataChanged` (with a hub). -/
+`NumericalDataChanged` (with a hub); the inputs of a derived component follow the announced
+replacements of identifiers and change in no other way. -/
 def valuesOk (hub : Bool) (pre post : Obs) (msgs : List Msg) : Bool :=
   post.comps.all fun c =>
     match lookupComp pre c.cid with
     | some c0 =>
-      !hub || (c0.kind == c.kind && c0.shape == c.shape && c0.val == c.val) || numericalCovers msgs c.cid
+      !hub || (kindAfter msgs c0.kind == c.kind && c0.shape == c.shape && c0.val == c.val)
+        || numericalCovers msgs c.cid
     | none => true
 
 /-- One call, judged on what was observed before and after it, the messages a catch-all listener
@@ -727,8 +795,6 @@ structure InvG (sh : Shape) (s : State) : Prop where
   /-- one world attribute per dimension iff coordinates are set -/
   world : if s.coords.isSome then FamOk s.comps s.world .world s.shape.length
           else s.world = [] ∧ ∀ c ∈ s.comps, ∀ a, c.kind ≠ .world a
-  /-- a dataset without a shape has no components -/
-  empty : s.shape = [] → s.comps = []
   /-- two pixel↔world links per dimension iff coordinates are set -/
   links : s.nlinks = if s.coords.isSome then 2 * s.shape.length else 0
   /-- identities in use were created before `next` -/
@@ -739,71 +805,25 @@ attribute per dimension, one world attribute per dimension iff coordinates are s
 dimension iff coordinates are set. -/
 abbrev Inv (s : State) : Prop := InvG s.shape s
 
-/-! ## the part of the API the theorems cover -/
+/-! ## the part of the API on which the model follows the code -/
 
-/-- Why a call is outside the hypothesis of the `_partial` theorems (`ok` = inside). None of the
-remaining constructs is a known defect (F20–F22 — removing a coordinate component, adding onto an id
-in use, `update_id` onto an id in use — are repaired and inside the hypothesis). -/
+/-- Why the model does not claim to follow the code on a call (`ok` = it does). The theorems hold for
+every call; this classification only says where the correspondence with `glue` is claimed (the
+driver's `p`). The one construct left is not a defect but a part of glue this model leaves out: inside
+a `DataCollection` the link manager owns `_externally_derivable_components` and overwrites it at
+every synchronisation (C03's subject), so setting it by hand there is not followed. -/
 inductive Construct where
   | ok
-  | updateIdDependents   -- update_id of an input of a derived component (C14 / F14)
-  | updateNonMain        -- update_components on a derived / coordinate / linked component
-  | renameForeign        -- label change of an id that is not a component of the dataset
   | linkedInCollection   -- `_set_externally_derivable_components` by hand while the link manager owns it
-  | scalarShape          -- 0-d arrays
-  | unknownId            -- an argument that is not an existing ComponentID object (ids are `< next`)
-  | coordsDims           -- coordinates object whose number of dimensions does not fit
   deriving DecidableEq, Repr, Inhabited
 
 def Construct.name : Construct → String
   | .ok => "ok"
-  | .updateIdDependents => "update-id-dependents"
-  | .updateNonMain => "update-non-main"
-  | .renameForeign => "rename-foreign"
   | .linkedInCollection => "linked-in-collection"
-  | .scalarShape => "scalar-shape"
-  | .unknownId => "unknown-id"
-  | .coordsDims => "coords-dims"
 
-/-- Every identifier a call mentions. -/
-def Op.ids : Op → List Cid
-  | .addArrayAt c _ _ => [c]
-  | .addDerived _ _ deps => deps
-  | .remove c => [c]
-  | .reorder cs => cs
-  | .updateId o n => [o, n]
-  | .updateComponents m => m.map (·.1)
-  | .rename c _ => [c]
-  | .setLinked cs => cs
-  | _ => []
-
-def classifyArgs (s : State) : Op → Construct
-  | .addArray _ shape _ => if shape.isEmpty then .scalarShape else .ok
-  | .addArrayAt _ shape _ =>
-    if shape.isEmpty then .scalarShape else .ok
-  | .addDerived _ _ _ => .ok
-  | .remove _ => .ok
-  | .reorder _ => .ok
-  | .updateId old new =>
-    if new == old then .ok
-    else if s.comps.any (fun x => x.kind.dependsOn old) then .updateIdDependents
-    else .ok
-  | .updateComponents m =>
-    if m.all (fun e => s.comps.any (fun x => x.cid == e.1 && x.kind.isMain) || !(cids s.comps ++ s.linked).contains e.1)
-    then .ok else .updateNonMain
-  | .updateFrom o =>
-    if o.shape.isEmpty && !o.comps.isEmpty then .scalarShape else .ok
-  | .setCoords _ => .ok
-  | .rename c _ => if (cids s.comps).contains c then .ok else .renameForeign
-  | .setLabel _ => .ok
-  | .attach => .ok
-  | .detach => .ok
-  | .register => .ok
+def classify (s : State) : Op → Construct
   | .setLinked _ => if s.inDc then .linkedInCollection else .ok
-  | .nop => .ok
-
-def classify (s : State) (op : Op) : Construct :=
-  if op.ids.all (· < s.next) then classifyArgs s op else .unknownId
+  | _ => .ok
 
 /-! ## histories -/
 
@@ -812,8 +832,8 @@ def run (s : State) : List Op → State
   | [] => s
   | op :: ops => run (step s op).state ops
 
-/-- Every call of the history lies inside the hypothesis of the `_partial` theorems (classified
-at the state it is issued in). -/
+/-- On every call of the history the model claims to follow the code (classified at the state the
+call is issued in). -/
 def allOk (s : State) : List Op → Bool
   | [] => true
   | op :: ops => classify s op == .ok && allOk (step s op).state ops
